@@ -173,4 +173,51 @@ theorem escape_unit_roundtrip_aux (u : EscapeUnit) (h : u.Producible) (rest : Li
   | _ => simp [printEscape, lexEscape]
 
 
+/-! ## the value of a Unicode escape -/
+
+
+/-- `char::from_u32`: exactly the surrogates and the values above U+10FFFF are rejected -/
+theorem charFromU32_none_iff (v : Nat) :
+    charFromU32 v = none ↔ (0xD800 ≤ v ∧ v ≤ 0xDFFF) ∨ 0x110000 ≤ v := by
+  unfold charFromU32
+  by_cases h : v.isValidChar
+  · simp only [h, if_true]
+    unfold Nat.isValidChar at h
+    constructor
+    · intro e; cases e
+    · intro e; omega
+  · simp only [h, if_false]
+    unfold Nat.isValidChar at h
+    constructor
+    · intro _; omega
+    · intro _; trivial
+
+theorem charFromU32_some (v : Nat) (h : v < 0xD800 ∨ (0xDFFF < v ∧ v < 0x110000)) :
+    charFromU32 v = some (Char.ofNat v) := by
+  unfold charFromU32
+  have : v.isValidChar := h
+  simp [this]
+
+/-- the long Unicode escape on eight printed digits: every 32-bit value is either a scalar value, read as
+    that character, or rejected (`UnicodeEscapeOutOfRange`) — never anything else -/
+theorem lexEscape_long_unicode (v : Nat) (hv : v < 4294967296) (rest : List Char) :
+    lexEscape ('\\' :: 'U' :: (upperHex8 v ++ rest)) =
+      if v < 0xD800 ∨ (0xDFFF < v ∧ v < 0x110000) then some (.unicode (Char.ofNat v), rest) else none := by
+  have hd := hexDigits_upperHex8 v hv rest
+  by_cases h : v < 0xD800 ∨ (0xDFFF < v ∧ v < 0x110000)
+  · simp [lexEscape, hd, charFromU32_some v h, h]
+  · have hn : charFromU32 v = none := (charFromU32_none_iff v).mpr (by omega)
+    simp [lexEscape, hd, hn, h]
+
+/-- the short Unicode escape on four printed digits -/
+theorem lexEscape_short_unicode (v : Nat) (hv : v < 65536) (rest : List Char) :
+    lexEscape ('\\' :: 'u' :: (lowerHex4 v ++ rest)) =
+      if v < 0xD800 ∨ 0xDFFF < v then some (.unicode (Char.ofNat v), rest) else none := by
+  have hd := hexDigits_lowerHex4 v hv rest
+  by_cases h : v < 0xD800 ∨ 0xDFFF < v
+  · have h' : v < 0xD800 ∨ (0xDFFF < v ∧ v < 0x110000) := by omega
+    simp [lexEscape, hd, charFromU32_some v h', h]
+  · have hn : charFromU32 v = none := (charFromU32_none_iff v).mpr (by omega)
+    simp [lexEscape, hd, hn, h]
+
 end YashModel.Syntax
